@@ -334,10 +334,153 @@ def gen_cases(tier):
     return cases
 
 
+# ---------------------------------------------------------------------------
+# literal arguments: "every other argument is passed through literally" - by identity
+
+import collections
+
+Pt = collections.namedtuple('Pt', 'x y')
+
+
+class DictSub(dict):
+    pass
+
+
+class ListSub(list):
+    pass
+
+
+class TupleSub(tuple):
+    pass
+
+
+class SetSub(set):
+    pass
+
+
+class FrozenSub(frozenset):
+    pass
+
+
+class Plain:
+    pass
+
+
+class Rec:
+    """answers every recorded operation with the operand it received"""
+    def __getitem__(self, k):
+        return ('getitem', k)
+
+    def __call__(self, *a, **kw):
+        return ('call', a, kw)
+
+
+for _n, _f in PYOP.items():
+    setattr(Rec, '__%s__' % _f.__name__.strip('_'), (lambda n: (lambda self, o: (n, o)))(_n))
+
+LITERAL_KINDS = {
+    # name -> (factory, passed through by identity?)
+    'namedtuple': (lambda: Pt(1, 2), True),
+    'dict-subclass': (lambda: DictSub(a=1), True),
+    'defaultdict': (lambda: collections.defaultdict(list, a=[1]), True),
+    'ordereddict': (lambda: collections.OrderedDict(a=1), True),
+    'list-subclass': (lambda: ListSub([1, 2]), True),
+    'tuple-subclass': (lambda: TupleSub((1, 2)), True),
+    'set-subclass': (lambda: SetSub([1]), True),
+    'frozenset-subclass': (lambda: FrozenSub([1]), True),
+    'deque': (lambda: collections.deque([1, 2]), True),
+    'object': (Plain, True),
+    'function': (lambda: len, True),
+    'class': (lambda: int, True),
+    'bytes': (lambda: b'ab', True),
+    'bytearray': (lambda: bytearray(b'ab'), True),
+    'range': (lambda: range(3), True),
+    'none': (lambda: None, True),
+    'ellipsis': (lambda: Ellipsis, True),
+    'str': (lambda: 'T', True),
+    'plain-list': (lambda: [1, 'a'], False),
+    'plain-dict': (lambda: {'a': 1}, False),
+    'plain-tuple': (lambda: (1, 'a'), False),
+    'plain-set': (lambda: {1, 'a'}, False),
+    'plain-frozenset': (lambda: frozenset([1, 'a']), False),
+    'empty-list': (lambda: [], False),
+}
+WRAPPERS = ['direct', 'in-list', 'in-tuple', 'dict-value', 'list-in-list', 'in-list-twice']
+POSITIONS = ['index', 'call-arg', 'call-kwarg', 'call-second-arg'] + ['op' + b for b in BIN]
+
+
+def wrap_literal(wrapper, lit):
+    if wrapper == 'direct':
+        return lit, (lambda got: got)
+    if wrapper == 'in-list':
+        return [0, lit], (lambda got: got[1])
+    if wrapper == 'in-tuple':
+        return (lit, 0), (lambda got: got[0])
+    if wrapper == 'dict-value':
+        return {'k': lit}, (lambda got: got['k'])
+    if wrapper == 'list-in-list':
+        return [[lit]], (lambda got: got[0][0])
+    if wrapper == 'in-list-twice':
+        return [lit, lit], (lambda got: got[1])
+    raise ValueError(wrapper)
+
+
+def run_literal(case):
+    kind, wrapper, position = case
+    factory, by_identity = LITERAL_KINDS[kind]
+    lit = factory()
+    arg, unwrap = wrap_literal(wrapper, lit)
+    if position == 'index':
+        spec, pick, py = T[arg], (lambda r: r[1]), (lambda t: t[arg])
+    elif position == 'call-arg':
+        spec, pick, py = T(arg), (lambda r: r[1][0]), (lambda t: t(arg))
+    elif position == 'call-second-arg':
+        spec, pick, py = T(T, arg), (lambda r: r[1][1]), (lambda t: t(t, arg))
+    elif position == 'call-kwarg':
+        spec, pick, py = T(kw=arg), (lambda r: r[2]['kw']), (lambda t: t(kw=arg))
+    else:
+        b = position[2:]
+        spec, pick, py = PYOP[b](T, arg), (lambda r: r[1]), (lambda t: PYOP[b](t, arg))
+    where = {'literal': kind, 'wrapper': wrapper, 'position': position, 'expr': repr(spec)[:200]}
+    target = Rec()
+    want = py(target)
+    try:
+        got = glom(target, spec)
+    except Exception as e:
+        return R({'expected': 'the value Python computes, %r' % (want,), 'observed': 'raised %r' % (e,), **where}, 'raises')
+    if got[0] != want[0]:
+        return R({'expected': 'operation %r' % (want[0],), 'observed': repr(got[0]), **where}, 'wrong-op')
+    try:
+        received = unwrap(pick(got))
+    except Exception as e:
+        return R({'expected': 'argument of the same shape', 'observed': 'received %r (%r)' % (got, e), **where}, 'shape')
+    outer = pick(got)
+    if type(outer) is not type(arg) or (wrapper != 'direct' and len(outer) != len(arg)):
+        return R({'expected': 'argument %r' % (arg,), 'observed': 'received %r' % (outer,), **where}, 'shape')
+    if by_identity:
+        if received is not lit:
+            return R({'expected': 'the literal argument itself (%s %r) reaches the operation' % (type(lit).__name__, lit),
+                      'observed': 'a different object: %s %r' % (type(received).__name__, received), **where}, 'copied')
+    else:
+        if type(received) is not type(lit) or received != lit:
+            return R({'expected': '%s %r' % (type(lit).__name__, lit), 'observed': '%s %r' % (type(received).__name__, received), **where}, 'changed')
+    return R(None, ('identity' if by_identity else 'rebuilt') + ':' + position.rstrip('+-*/%&|^'), nontrivial=True, steps=1,
+             tags={kind, wrapper, 'op' if position.startswith('op') else position})
+
+
+def gen_literals(tier):
+    return [[k, w, p] for k in LITERAL_KINDS for w in WRAPPERS for p in POSITIONS]
+
+
 def subs(tier, only=None):
     from ..engine import fast_tracebacks
     fast_tracebacks()
-    return [Sub('t-replay', gen_cases(tier), run_case,
+    return [Sub('literal-arguments', gen_literals(tier), run_literal,
+                rule='case = (kind of literal, wrapper of plain containers around it, argument position: index / call / keyword / each binary operator); '
+                     'a recording target returns the operand it received; container subclasses, namedtuples and all non-container objects must arrive '
+                     'as the very same object, plain containers equal and of the same type',
+                min_nontrivial=1500, min_outcomes=6, required_tags=['namedtuple', 'dict-subclass', 'in-list', 'index', 'call-kwarg', 'op']),
+            Sub('t-replay', gen_cases(tier), run_case,
                 rule='case = (target, operation sequence); generated by DFS over the op menu, extended while the prefix '
                      'succeeds on that target; non-trivial = at least one operation',
                 min_nontrivial=2000, min_outcomes=6,
